@@ -873,6 +873,18 @@ class Exec(Engine):
 
     def st_Assign(self, s, st):
         out = []
+        if (isinstance(s.value, ast.Dict) and not s.value.keys and len(s.targets) == 1
+                and isinstance(s.targets[0], ast.Name)):
+            ty = (self.cur.extra.get('locals') or {}).get(s.targets[0].id)
+            if ty is None or not ty.startswith('Dict['):
+                raise EngineError('%s:%d: empty dict literal: declare locals={%r: "Dict[K,V]"} in the contract'
+                                  % (self.rel, s.lineno, s.targets[0].id))
+            k, v = [x.strip().lower() for x in ty[5:-1].split(',', 1)]
+            st = st.copy()
+            ks = self.sort_of_kind(k)
+            st.env[s.targets[0].id] = st.alloc(Dict(k, v, z3.K(ks, z3.BoolVal(False)),
+                                                    fresh('emptyval', z3.ArraySort(ks, self.sort_of_kind(v)))))
+            return [Result(st)]
         for r in self.ev(s.value, st):
             if r.exc is not None:
                 out.append(Result(r.st, exc=r.exc, flow='raise'))
